@@ -305,7 +305,8 @@ class Executor:
             if cdiv_int:
                 return self.intdiv(st, a, b, node, trunc=True)
             a, b = to_real(a), to_real(b)
-            self.oblige(st, 'safe:div', node, (b != 0) if is_z3(b) else (b != 0), 'divisor is non-zero')
+            if self.contract.options.get('float_div_raises', True):
+                self.oblige(st, 'safe:div', node, (b != 0) if is_z3(b) else (b != 0), 'divisor is non-zero')
             if is_concrete(a) and is_concrete(b):
                 return Fraction(a) / Fraction(b) if b != 0 else Fraction(0)
             return to_z3(a) / to_z3(b)
@@ -379,6 +380,8 @@ class Executor:
         return z3.If(z3.Or(b > 0, m == 0), q, q - 1)
 
     def compare(self, st, op, a, b, node):
+        if a is INF or b is INF:
+            raise OutOfSubset('comparison with inf at line %d' % node.lineno)
         if isinstance(op, (ast.Is, ast.IsNot)):
             if a is None or b is None:
                 r = (a is None and b is None)
@@ -499,6 +502,10 @@ class Executor:
     def subscript_load(self, st, base, idx, node):
         if isinstance(base, VOpaque):
             return VOpaque('subscript of ' + base.what)
+        if is_vec(base):
+            if isinstance(idx, slice) or isinstance(idx, VTuple):
+                return fresh_vec('sub')
+            return vec_op('getitem', base, idx)
         if isinstance(base, VTuple) or (isinstance(base, Ref) and isinstance(st.heap[base.id], ListContent)):
             items = base if isinstance(base, VTuple) else st.heap[base.id].items
             if isinstance(idx, slice):
@@ -827,6 +834,8 @@ class Executor:
             return z3.If(t, to_z3(a), to_z3(b))
         if is_bool(a) and is_bool(b):
             return z3.If(t, to_z3(a), to_z3(b))
+        if is_vec(a) and is_vec(b):
+            return z3.If(t, a, b)
         raise OutOfSubset('conditional expression over non-scalars at line %d' % node.lineno)
 
     def e_Attribute(self, node, st):
@@ -864,6 +873,8 @@ class Executor:
             return VFunc('method:' + a, ('method', base, a))
         if isinstance(base, VOpaque):
             return VOpaque(base.what + '.' + a)
+        if is_vec(base):
+            return VOpaque('vec.' + a)
         raise OutOfSubset('attribute %s of %r at line %d' % (a, base, node.lineno))
 
     def e_Subscript(self, node, st):
@@ -1660,10 +1671,11 @@ class Executor:
             self.assume(hb, tb)
             self.assume(he, te)
             if not (isinstance(tb, bool) and not tb) and self.feasible(hb):
+                ctr0 = hb.env[ctr] if rng is not None else None
                 for (b2, out) in self.exec_block(body, hb):
                     if out in (None, 'continue'):
                         if rng is not None:
-                            b2.env[ctr] = self.binop(b2, ast.Add(), hb.env[ctr], step, s)
+                            b2.env[ctr] = self.binop(b2, ast.Add(), ctr0, step, s)
                         vb = self.view(b2)
                         for (lab, f) in S.labelled(spec.inv(vb) if spec.inv else [], 'inv'):
                             self.oblige(b2, 'inv-preserve', s, f, 'loop invariant preserved by the body', label='%s:%s' % (tag, lab))
@@ -1796,7 +1808,8 @@ class Executor:
         tmp = State()
         tmp.env, tmp.heap, tmp.pc, tmp.ctypes = env, st.heap, st.pc, st.ctypes
         pre_view = View(self, tmp)
-        for (lab, f) in S.labelled(spec.requires(pre_view) if spec.requires else [], 'pre'):
+        req = spec.call_requires or spec.requires
+        for (lab, f) in S.labelled(req(pre_view) if req else [], 'pre'):
             self.oblige(st, 'pre', call, f, 'precondition of %s' % spec.func, label='%s:%s:L+%d' % (spec.func, lab, self.rel(call)))
         # snapshot old
         old = State()
@@ -2172,6 +2185,8 @@ def _np_array(ex, st, node, x, *a, **k):
         return x
     if isinstance(x, VOpaque):
         return fresh_vec('array')
+    if isinstance(x, Ref) and isinstance(st.heap[x.id], ArrContent):
+        return fresh_vec('array')       # a copy, abstracted to a vector
     raise OutOfSubset('np.array of %r' % (x,))
 
 
@@ -2179,7 +2194,11 @@ def _np_inf():
     return None
 
 
-_BUILTINS = {'print': _b_print, 'dict': _b_dict, 'len': _b_len, 'range': _b_range, 'prange': lambda ex, st, node, *a, **k: _b_range(ex, st, node, *a),
+def _b_slice(ex, st, node, *a):
+    return fresh_vec('slice')
+
+
+_BUILTINS = {'slice': _b_slice, 'print': _b_print, 'dict': _b_dict, 'len': _b_len, 'range': _b_range, 'prange': lambda ex, st, node, *a, **k: _b_range(ex, st, node, *a),
              'reversed': _b_reversed, 'min': _minmax(True), 'max': _minmax(False), 'abs': _b_abs, 'fabs': _b_abs,
              'int': _b_int, 'tuple': _b_tuple, 'list': _b_list, 'enumerate': _b_enumerate, 'zip': _b_zip,
              'bool': _b_bool, 'float': _b_float, 'isinstance': _b_isinstance}
@@ -2208,6 +2227,8 @@ def _np_alloc(fill):
             shp = tuple(st.heap[shape.id].items)
         else:
             shp = (shape,)
+        if any(isinstance(s_, VOpaque) or is_vec(s_) for s_ in shp):
+            return fresh_vec('zeros')
         for s_ in shp:
             if not is_int(s_):
                 raise OutOfSubset('array shape %r at line %d' % (s_, node.lineno))
